@@ -14,7 +14,7 @@ READY = True
 TARGETS = ["theories/Props/C25.vo", "theories/Core/SourceClassify.vo", "theories/Extract/ExSource.vo"]
 THEOREMS = ["C25_text_preserved_partial", "C25_text_preserved_whole_lines", "C25_text_preserved_refuted",
             "C25_indent_block", "C25_indent_follows_braces_partial", "C25_indent_follows_braces_layout_partial",
-            "C25_indent_follows_braces_refuted", "C25_literal_transparent",
+            "C25_inert_piece", "C25_indent_follows_braces_refuted", "C25_literal_transparent",
             "C25_balanced_restores_indent_partial", "C25_balanced_restores_indent_sequence_partial",
             "C25_balanced_restores_indent_refuted"]
 ENV = {"RUST_BACKTRACE": "0"}
@@ -154,9 +154,9 @@ def shrink_ops(ops, fails):
 
 def run(ctx):
     quick = ctx.tier == "quick"
-    n_tie = 30000 if quick else 600000
-    n_bal = 5000 if quick else 100000
-    n_lit = 4000 if quick else 60000
+    n_tie = 30000 if quick else 1500000
+    n_bal = 5000 if quick else 150000
+    n_lit = 4000 if quick else 100000
     ctx.assumptions += [
         "model: ASCII text (Rust's trim/trim_start use Unicode White_Space; its ASCII members \\t \\n \\x0b \\x0c \\r and space are modelled, non-ASCII white space is outside model and tie alphabet); buffer kept reversed; usize indent as nat; deindent underflow = panic (debug build of the harness)",
         "str::lines as in Rust >= 1.77 (split_inclusive('\\n'), strip \\n then \\r); the malformed stream of the tie exercises \\r, \\x0b, \\x0c, control and protocol metacharacters",
@@ -410,5 +410,5 @@ META = {
     "engine": "coq+corelib",
     "technique": "Coq proofs over an executable model of Source (simulation invariant between buffer and appended text; per-line layout lemma; bracket-word shift lemma), vm_compute refutation witnesses, differential correspondence with the real Source via extracted OCaml",
     "text": "literal_transparent is proved at full strength for every state and literal. text_preserved, indent_follows_braces and balanced_restores_indent are FALSE on the real code as stated (Coq `_refuted` theorems; every witness is re-exhibited on the real Source each run and listed in known-findings.txt); proved instead, without size bounds: text_preserved for every call sequence outside two exactly characterised fragment shapes (run_safe) and in particular for all whole-line fragments; exact declarative layout (two spaces per open brace level, closers dedented, // lines and literal text inert, blank lines empty) and indentation restoration for whole-line fragments / line-balanced code. The model is tied to crates/core/src/source.rs on every run (tens of thousands of random call sequences incl. split lines, CR, write!, append_src, with probes exposing indent, continuing_line and in_line_comment); the four statements are also evaluated on the real outputs and any failure inside a proved domain, or any model/real disagreement, is a VIOLATION with a minimised replay.",
-    "note": "Trusted: Coq kernel (+vm_compute); extraction (ExtrOcamlBasic, ExtrOcamlString) and ocaml/source_driver.ml; harness/corelib line protocol and lib/c25_gen.py predicates; ASCII-only text. Print Assumptions: closed under the global context for all 11 property theorems.",
+    "note": "Trusted: Coq kernel (+vm_compute); extraction (ExtrOcamlBasic, ExtrOcamlString) and ocaml/source_driver.ml; harness/corelib line protocol and lib/c25_gen.py predicates; ASCII-only text. Print Assumptions: closed under the global context for all 12 property theorems.",
 }
